@@ -102,6 +102,79 @@ func runC14(c *Ctx) {
 	if gate == nil {
 		gate = row
 	}
+	// a row is decoded only from a non-empty window: the read of the field count is dominated by an edge on which
+	// len(Msg) != 0 holds, with nothing in between that can change the window. (A refill that is tried only once leaves
+	// the window empty when a CopyData message held nothing but the stream header.)
+	{
+		var fieldsCall *ssa.Call
+		for _, ci := range core.Calls(read) {
+			if call, ok := ci.(*ssa.Call); ok && isReaderMethod(call, "GetUint16") {
+				fieldsCall = call
+			}
+		}
+		var nonEmpty []edge
+		for _, b := range read.Blocks {
+			for _, in := range b.Instrs {
+				cmp, ok := in.(*ssa.BinOp)
+				if !ok {
+					continue
+				}
+				x, isLen := core.IsLenOf(cmp.X)
+				if !isLen {
+					continue
+				}
+				if fr, ok := core.FieldOfValue(x); !ok || !fr.Is(pkBuffer, "Reader", "Msg") {
+					continue
+				}
+				k, isK := core.ConstInt(cmp.Y)
+				if !isK || k != 0 {
+					continue
+				}
+				for _, u := range core.Referrers(cmp) {
+					iff, isIf := u.(*ssa.If)
+					if !isIf {
+						continue
+					}
+					switch cmp.Op {
+					case token.EQL:
+						nonEmpty = append(nonEmpty, edge{iff.Block(), 1})
+					case token.NEQ, token.GTR:
+						nonEmpty = append(nonEmpty, edge{iff.Block(), 0})
+					}
+				}
+			}
+		}
+		okNE := false
+		if fieldsCall != nil {
+			for _, e := range nonEmpty {
+				if !e.dominates(fieldsCall.Block()) {
+					continue
+				}
+				clean := true
+				for _, b := range read.Blocks {
+					if !e.dominates(b) || !b.Dominates(fieldsCall.Block()) {
+						continue
+					}
+					for _, in := range b.Instrs {
+						if in == ssa.Instruction(fieldsCall) {
+							break
+						}
+						if ci, isCall := in.(ssa.CallInstruction); isCall && c.modSets().MayModify(ci, "Reader", "Msg") {
+							clean = false
+						}
+					}
+				}
+				if clean {
+					okNE = true
+				}
+			}
+		}
+		where := c.atFn(read)
+		if fieldsCall != nil {
+			where = c.at(fieldsCall)
+		}
+		R.Check(okNE, "C14.R3", "(*BinaryCopyReader).Read:decodes-non-empty-window", where, "the next row is decoded only when the window holds data: an empty message (e.g. one that carried only the stream header) makes the reader fetch the next one", "the field-count read is dominated by a len(Msg) != 0 edge with no window change in between", "after the (single) refill the window can be empty again - a CopyData message that holds exactly the 19-byte stream header - and the field count is read from it: a well-formed stream split at that boundary fails with 'insufficient data'")
+	}
 	// field count == len(scanners) dominates the row allocation
 	eq := false
 	for _, b := range read.Blocks {
@@ -209,7 +282,17 @@ func runC14(c *Ctx) {
 	R.Count("in_row_stream_error_returns", nMid)
 
 	// ---------- R3: refill inside a row (open finding)
-	loops := core.Loops(asm)
+	// the field loop: the loop of the assembling function that reads the per-field length (other loops, e.g. a refill
+	// loop in front of the row, are not "inside a row")
+	allLoops := core.Loops(asm)
+	loops := map[*ssa.BasicBlock]*core.Loop{}
+	for h, l := range allLoops {
+		for b := range l.Body {
+			if blockHasCall(b, func(ci ssa.CallInstruction) bool { return isReaderMethod(ci, "GetUint32") }) {
+				loops[h] = l
+			}
+		}
+	}
 	refill := false
 	for _, l := range loops {
 		for b := range l.Body {
